@@ -46,6 +46,12 @@ def sels_for(names, with_attr=True):
         out.append((A(vs[0], "p"), vs[1]))
         out.append((A(vs[1], "q"), A(vs[0], "p")))
         out.append((vs[0], A(vs[0], "p"), vs[1]))
+        # SEVERAL expressions over one variable (the tag identifies the object: a row mixing two assignments is visible),
+        # the variable itself after one of its expressions
+        out.append((A(vs[0], "tag"), A(vs[0], "p")))
+        out.append((A(vs[0], "p"), vs[0]))
+        out.append((A(vs[0], "tag"), vs[1], A(vs[0], "q")))
+        out.append((A(vs[1], "tag"), A(vs[0], "p"), A(vs[1], "q")))
     return out
 
 
